@@ -66,9 +66,11 @@ type hstate struct {
 	pair      *types.StructType
 	pairFuncs []*ir.Func
 	pairCalls []*ir.InstCall
-	decls     []*ir.Global      // globals created as declarations (some are given an initializer later)
-	bigInts   []*constant.Int   // integer constants >= 4096 shared by several operands, edited in place later
-	floats    []*constant.Float // float constants that need more than 24 significand bits, shared by several operands
+	decls     []*ir.Global       // globals created as declarations (some are given an initializer later)
+	bigInts   []*constant.Int    // integer constants >= 4096 shared by several operands, edited in place later
+	floats    []*constant.Float  // float constants that need more than 24 significand bits, shared by several operands
+	groups    []*ir.AttrGroupDef // attribute groups added by "attrgroup" (some empty, filled by "attrfill")
+	comdats   []*ir.ComdatDef    // comdats set on globals by "comdatset" (listed in the module only by "comdatlist")
 }
 
 func (h *hstate) pairType() *types.StructType {
@@ -397,6 +399,57 @@ func (h *hstate) apply(s hstep) {
 			m.NamedMetadataDefs["front"] = nd
 		}
 		nd.Nodes = append(nd.Nodes, t)
+	case "attrgroup":
+		// a new attribute group (empty for even N), used by a function; IDs count down from 40 so that the list is not in ID order
+		g := &ir.AttrGroupDef{ID: int64(40 - len(h.groups))}
+		if s.N%2 == 1 {
+			g.FuncAttrs = append(g.FuncAttrs, enum.FuncAttrNoUnwind)
+		}
+		h.groups = append(h.groups, g)
+		m.AttrGroupDefs = append(m.AttrGroupDefs, g)
+		if f := h.fn(s.F); f != nil {
+			f.FuncAttrs = append(f.FuncAttrs, g)
+		}
+	case "attrfill":
+		// an attribute added to (or, for a group that has some, removed from) an existing group
+		if len(h.groups) == 0 {
+			return
+		}
+		g := h.groups[s.I%len(h.groups)]
+		if len(g.FuncAttrs) == 0 {
+			g.FuncAttrs = append(g.FuncAttrs, enum.FuncAttrNoReturn)
+		} else if s.N%3 == 0 {
+			g.FuncAttrs = nil
+		} else {
+			g.FuncAttrs = append(g.FuncAttrs, ir.AttrString(fmt.Sprintf("a%d", s.N)))
+		}
+	case "comdatset":
+		// a comdat set on a global without being listed in the module (yet)
+		if len(m.Globals) == 0 {
+			return
+		}
+		c := &ir.ComdatDef{Name: s.Name, Kind: enum.SelectionKindAny}
+		h.comdats = append(h.comdats, c)
+		m.Globals[s.I%len(m.Globals)].Comdat = c
+	case "comdatlist":
+		// the client lists the comdats it has set so far (those not yet listed)
+		for _, c := range h.comdats {
+			listed := false
+			for _, d := range m.ComdatDefs {
+				if d == c {
+					listed = true
+				}
+			}
+			if !listed {
+				m.ComdatDefs = append(m.ComdatDefs, c)
+			}
+		}
+	case "comdatdrop":
+		// a global gives its comdat up; an unlisted comdat nobody uses is gone
+		if len(m.Globals) == 0 {
+			return
+		}
+		m.Globals[s.I%len(m.Globals)].Comdat = nil
 	case "attach":
 		f := h.fn(s.F)
 		b := h.blk(f, s.B)
@@ -544,9 +597,19 @@ func genHistory(rng *rand.Rand, n int, fenced bool) []hstep {
 		funcs = append(funcs, fshape{blocks: []int{0}})
 	}
 	for len(steps) < n {
-		r := rng.Intn(124)
+		r := rng.Intn(130)
 		fi := rng.Intn(len(funcs))
 		switch {
+		case r >= 129:
+			steps = append(steps, hstep{Op: "comdatdrop", I: rng.Intn(9)})
+		case r >= 128:
+			steps = append(steps, hstep{Op: "comdatlist"})
+		case r >= 127:
+			steps = append(steps, hstep{Op: "comdatset", Name: name(false), I: rng.Intn(9)})
+		case r >= 126:
+			steps = append(steps, hstep{Op: "attrfill", I: rng.Intn(9), N: rng.Intn(9)})
+		case r >= 124:
+			steps = append(steps, hstep{Op: "attrgroup", F: fi, N: rng.Intn(9)})
 		case r >= 122:
 			steps = append(steps, hstep{Op: "baddr", F: fi, C: rng.Intn(len(funcs)), I: rng.Intn(9)})
 		case r >= 120:
